@@ -1,0 +1,14 @@
+// SPDX-FileCopyrightText: 2026 The Pion community <https://pion.ly>
+// SPDX-License-Identifier: MIT
+
+//go:build verif
+
+package intervalpli
+
+// VerifC11Stream reports whether ssrc is in the set of streams that receive
+// periodic PLIs; the entry carries no state (lifecycle check C11).
+func (r *GeneratorInterceptor) VerifC11Stream(ssrc uint32) (exists, fresh bool) {
+	_, ok := r.streams.Load(ssrc)
+
+	return ok, true
+}
